@@ -182,6 +182,17 @@ pub fn spec(check: &str, tier: &str) -> Option<CheckSpec> {
                 abort_is_violation: true,
             })
         }
+        "C12" => Some(CheckSpec {
+            id: "C12",
+            level: "model_checking",
+            rule: "every operation sequence up to the depth over the op alphabet (load, store, swap, compare_exchange(_weak), compare_and_swap, fetch_add/sub/and/nand/or/xor/max/min, fetch_update Some/None, with_mut, unsync_load, into_inner) x boundary operands x 12 atomic types x every initial value; every valid ordering combination at depth 1; one job per (type, initial value)",
+            assumptions: vec!["compare_exchange_weak does not fail spuriously for a single thread on this host (the std side retries)", "orderings beyond depth 1 are SeqCst: the returned values do not depend on them for one thread"],
+            wall_cap: Duration::from_secs(if tier == "quick" { 60 } else { 1800 }),
+            jobs: crate::seqcheck::jobs(tier),
+            self_checks: vec![],
+            completed_level: if tier == "quick" { "depth 2, full boundary operand set (9 values)".to_string() } else { "depth 3 with 5 boundary operands + depth 2 with 9".to_string() },
+            abort_is_violation: true,
+        }),
         "C13" => {
             // programs with schedule, load and spurious branches and a manageable iteration count
             let mut progs = vec![];
@@ -240,6 +251,39 @@ pub fn spec(check: &str, tier: &str) -> Option<CheckSpec> {
                 jobs: js,
                 self_checks: vec![],
                 completed_level: format!("K = {}", progs.len()),
+                abort_is_violation: true,
+            })
+        }
+        "C19" => {
+            let mut progs = vec![];
+            let level;
+            if tier == "quick" {
+                progs.extend(fam::a_sc(1, 2, 2, 4, true));
+                progs.extend(fam::a_sc(2, 2, 2, 4, true));
+                progs.extend(fam::a_sc(1, 3, 1, 3, true));
+                progs.extend(fam::lock_family(2, 0, 2, 3, 6, true, true));
+                progs.extend(fam::lock_family(1, 1, 2, 3, 6, true, true));
+                level = "A-sc RMW-only 2-3 threads <=4 ops; LOCK 2 threads <=6 ops".to_string();
+            } else {
+                progs.extend(fam::a_sc(1, 2, 3, 6, true));
+                progs.extend(fam::a_sc(2, 2, 2, 4, true));
+                progs.extend(fam::a_sc(1, 3, 2, 4, true));
+                progs.extend(fam::lock_family(2, 0, 2, 4, 8, true, true));
+                progs.extend(fam::lock_family(1, 1, 2, 4, 8, true, true));
+                progs.extend(fam::lock_family(1, 0, 3, 3, 7, true, true));
+                level = "A-sc RMW-only 2 threads <=6 ops, 3 threads <=4 ops; LOCK 2 threads <=8 ops, 3 threads <=7 ops".to_string();
+            }
+            let mut cfg = cfg.clone();
+            cfg.iter_cap = 5000;
+            Some(CheckSpec {
+                id: "C19",
+                level: "model_checking",
+                rule: "every program of the level x every placement i<=j of stop_exploring()/explore() in every thread, every placement of skip_branch(), every placement of explore() with expect_explicit_explore; max_branches in {b-1,b,b+1}; max_threads in {k-1,k,k+1}; max_permutations x checkpoint interval grid around N; max_duration in {0, 1h}; non-trivial = >= 2 iterations unrestricted",
+                assumptions: vec!["a region is the time between the two calls (the exploring flag is global to the execution)", "max_permutations / max_duration are only examined at checkpoint boundaries, as documented for the checkpoint interval"],
+                wall_cap: wall,
+                jobs: jobs("C19", tier, progs, &cfg),
+                self_checks: vec![],
+                completed_level: level,
                 abort_is_violation: true,
             })
         }
